@@ -841,6 +841,34 @@ pub fn run_c17(rep: &Report) -> i32 {
             }
         }
     }
+    // unknown lines longer than any buffer: the line starts with a junk token and goes on with a command word
+    // repeated up to 128 KiB (256 KiB thorough); the junk prefix takes every length modulo the period, so a
+    // reader that cuts the line at ANY byte offset (a bounded read, a fixed buffer) would start its next "line"
+    // exactly on a command word in one of the inputs
+    let reach: usize = if rep.quick() { 128 * 1024 } else { 256 * 1024 };
+    let mut long_inputs: Vec<(String, Vec<u8>)> = Vec::new();
+    for word in ["isready", "quit"] {
+        for j in 1..=word.len() + 1 {
+            let mut line = "x".repeat(j);
+            while line.len() < reach {
+                line.push(' ');
+                line.push_str(word);
+            }
+            let input = format!("uci\nposition startpos\n{}\nisready\n", line);
+            long_inputs.push((format!("{} x then ' {}' repeated to {} bytes", j, word, line.len()), input.into_bytes()));
+        }
+    }
+    for bin in [BIN_ON, BIN_OFF] {
+        let results = run_parallel(long_inputs.len(), |i| run_raw(bin, &long_inputs[i].1, Duration::from_secs(10)));
+        for (i, (out, code, timed_out)) in results.iter().enumerate() {
+            lifecycle_runs.fetch_add(1, Ordering::Relaxed);
+            let n = out.matches("readyok").count();
+            if *timed_out || code.is_none() || *code == Some(101) || n != 1 {
+                rep.fail("C17", "long-unknown-line-not-ignored-as-one-line", format!("uci / position startpos / <{}> / isready / end of input on {}: {} readyok (1 expected), exit {:?}, killed {}", long_inputs[i].0, bin, n, code, timed_out), J::obj().set("kind", J::s("c17-long-line")).set("input", J::s(&format!("uci\\nposition startpos\\n<{}>\\nisready\\n", long_inputs[i].0))).set("binary", J::s(bin)));
+            }
+        }
+    }
+    rep.add("long_unknown_lines_every_cut_offset_modulo_the_word_period", (long_inputs.len() * 2) as u64);
     rep.add("sessions_with_a_garbage_line", garbage_runs.load(Ordering::Relaxed));
     rep.add("isready_answered_with_readyok", readyoks.load(Ordering::Relaxed));
     rep.add("lifecycle_runs_quit_or_end_of_input", lifecycle_runs.load(Ordering::Relaxed));
@@ -903,7 +931,147 @@ pub fn c10_sessions(rep: &Report) -> (u64, u64) {
             rep.fail("C10", "record-carries-over-between-position-commands", format!("after {:?} the search receives a board/record different from the one after the last position command alone", s.iter().map(|c| c.line.clone()).collect::<Vec<_>>()), session_json(&s));
         }
     });
-    (sessions.len() as u64, total_cmds.load(Ordering::Relaxed))
+    // every go of a session, not only the one after a position command: the record the search receives is the
+    // loop's own record at that moment (go does not change it), so a second or third go in a row, or one after
+    // isready / ucinewgame, searches with the full history of the game
+    let mut follow: Vec<Vec<Cmd>> = Vec::new();
+    for p in &cmds {
+        follow.push(vec![c(p), c("go"), c("go")]);
+        follow.push(vec![c(p), c("go"), c("go"), c("go")]);
+        follow.push(vec![c(p), c("go"), c("isready"), c("go")]);
+        follow.push(vec![c(p), c("isready"), c("go"), c("ucinewgame"), c("go")]);
+        follow.push(vec![c(p), go(GO_TIMED, 40), go(GO_TIMED, 3), c("go")]);
+    }
+    let extra_cmds = AtomicU64::new(0);
+    run_parallel(follow.len(), |i| {
+        let s = &follow[i];
+        extra_cmds.fetch_add(s.len() as u64, Ordering::Relaxed);
+        let o = run_session(s, &default_opts());
+        if o.timed_out || o.states.len() != s.len() {
+            rep.fail("C08", "session-hangs", format!("{:?}", s.iter().map(|c| c.line.clone()).collect::<Vec<_>>()), session_json(s));
+            return;
+        }
+        let gos = s.iter().filter(|c| is_go(&c.line)).count();
+        if o.searches.len() != gos {
+            return; // a go on a finished game starts no search: nothing to align
+        }
+        let table_of = |l: &str| l.split(" table=").nth(1).unwrap_or("").to_string();
+        let mut gi = 0;
+        for (ci, cmd) in s.iter().enumerate() {
+            if !is_go(&cmd.line) {
+                continue;
+            }
+            let before = if ci == 0 { "[]".to_string() } else { table_of(&o.states[ci - 1]) };
+            let got = table_of(&o.searches[gi]);
+            if got != before {
+                rep.fail("C10", &format!("go-number-{}-searches-with-another-record-than-the-loop-holds", gi + 1), format!("session {:?}: go #{} received the record {} while the loop holds {}", s.iter().map(|c| c.line.clone()).collect::<Vec<_>>(), gi + 1, got, before), session_json(s));
+            }
+            gi += 1;
+        }
+    });
+    ((sessions.len() + follow.len()) as u64, total_cmds.load(Ordering::Relaxed) + extra_cmds.load(Ordering::Relaxed))
+}
+
+/// the loop's state dump after the last command of a session against the oracle's position
+fn compare_loop_state(rep: &Report, s: &[Cmd], o: &Outcome, want: &Pos, h: &crate::zobrist::ZobristHasher) {
+    let lines: Vec<String> = s.iter().map(|c| if c.line.len() > 200 { format!("{}… ({} bytes)", &c.line[..200], c.line.len()) } else { c.line.clone() }).collect();
+    let st = last_state(o);
+    let field = |name: &str| -> String { st.split(' ').find_map(|t| t.strip_prefix(&format!("{}=", name)).map(|x| x.to_string())).unwrap_or_default() };
+    let mut sq = String::new();
+    for r in (0..8).rev() {
+        for f in 0..8 {
+            let p = want.b[(r * 8 + f) as usize];
+            sq.push(if p == 0 { '.' } else { rules::piece_char(p) });
+        }
+    }
+    let rights = format!("{}{}{}{}", if want.rights & rules::WK != 0 { "K" } else { "-" }, if want.rights & rules::WQ != 0 { "Q" } else { "-" }, if want.rights & rules::BK != 0 { "k" } else { "-" }, if want.rights & rules::BQ != 0 { "q" } else { "-" });
+    let ep = want.ep.map(|e| { let p = crate::bridge::point_of_sq(e); format!("{}.{}", p.0, p.1) }).unwrap_or("-".into());
+    let key = crate::bridge::scratch_key(want, h).to_string();
+    let stm = if want.stm == rules::WHITE { "w" } else { "b" };
+    let mut diffs = Vec::new();
+    for (name, w) in [("sq", sq.as_str()), ("stm", stm), ("rights", rights.as_str()), ("ep", ep.as_str()), ("key", key.as_str())] {
+        if field(name) != w {
+            diffs.push(format!("{} is {} but the rules give {}", name, field(name), w));
+        }
+    }
+    if !diffs.is_empty() {
+        let context = if s.len() == 1 { "alone".to_string() } else { format!("after-{}", s[s.len() - 2].line.split(' ').next().unwrap_or("")) };
+        rep.fail("C04", &format!("position-command-in-session/{}", context), format!("session {:?}: after the last position command {}", lines, diffs.join("; ")), session_json(s));
+    }
+}
+
+/// A long legal game from the start position: pieces shuffle without captures or pawn moves, each ply going
+/// to the least-visited position available (so no position recurs often), until the move list reaches
+/// `bytes` bytes. Built with the rules oracle only.
+pub fn long_game(bytes: usize) -> String {
+    let mut pos = Pos::from_fen("rnbqkbnr/pppppppp/8/8/8/8/PPPPPPPP/RNBQKBNR w KQkq - 0 1").unwrap();
+    // open the position a little so that more than the knights can move
+    let mut line = String::from("position startpos moves");
+    let mut seen: std::collections::HashMap<u128, u32> = std::collections::HashMap::new();
+    for m in ["e2e3", "e7e6", "d2d3", "d7d6", "a2a4", "a7a5", "h2h4", "h7h5"] {
+        let mv = Mv::from_uci(m).unwrap();
+        pos = pos.make(&mv);
+        line.push(' ');
+        line.push_str(m);
+    }
+    while line.len() < bytes {
+        let mut best: Option<(u32, Mv, Pos)> = None;
+        for mv in pos.legal_moves() {
+            let piece = pos.b[mv.from as usize];
+            if pos.is_capture(&mv) || rules::kind_of(piece) == rules::P || rules::kind_of(piece) == rules::K || pos.is_castle(&mv) {
+                continue;
+            }
+            let nx = pos.make(&mv);
+            if nx.in_check(nx.stm) || nx.legal_moves().is_empty() {
+                continue; // nobody is ever in check, so a quiet piece move always exists
+            }
+            let n = *seen.get(&crate::bridge::fingerprint(&nx, 0)).unwrap_or(&0);
+            if best.as_ref().map(|b| n < b.0).unwrap_or(true) {
+                best = Some((n, mv, nx));
+            }
+        }
+        let (n, mv, nx) = best.expect("long_game: no quiet move");
+        if n > 100 {
+            crate::report::machinery_error("long_game: a position would recur more than 100 times");
+        }
+        *seen.entry(crate::bridge::fingerprint(&nx, 0)).or_insert(0) += 1;
+        line.push(' ');
+        line.push_str(&mv.uci());
+        pos = nx;
+    }
+    line
+}
+
+/// Position commands longer than any I/O buffer (8 KiB, 16 KiB, 64 KiB pipes and readers): the game must be
+/// taken in whole, alone and after another game.
+pub fn c04_long_lines(rep: &Report, sizes: &[usize]) -> (u64, u64) {
+    require_binaries();
+    let h = crate::zobrist::ZobristHasher::create_zobrist_hasher();
+    let games: Vec<String> = sizes.iter().map(|&b| long_game(b)).collect();
+    let mut sessions: Vec<(Vec<Cmd>, usize)> = Vec::new();
+    for (i, g) in games.iter().enumerate() {
+        if pos_of_command(g).is_none() {
+            crate::report::machinery_error("the long game is not legal by the oracle");
+        }
+        sessions.push((vec![c(g)], i));
+        sessions.push((vec![c(POSITIONS[3]), c("go"), c(g)], i));
+        sessions.push((vec![c(g), c("isready"), c(g)], i));
+    }
+    let total = AtomicU64::new(0);
+    run_parallel(sessions.len(), |j| {
+        let (s, gi) = &sessions[j];
+        total.fetch_add(s.len() as u64, Ordering::Relaxed);
+        let mut opts = default_opts();
+        opts.timeout = Duration::from_secs(20);
+        let o = run_session(s, &opts);
+        if o.timed_out || o.states.len() != s.len() {
+            rep.fail("C04", "long-position-line-not-handled-as-one-command", format!("a position command of {} bytes: {} of {} commands handled, exit {:?}", games[*gi].len(), o.states.len(), s.len(), o.exit_code), J::obj().set("kind", J::s("c04-long")).set("bytes", J::i(games[*gi].len() as i64)));
+            return;
+        }
+        let want = pos_of_command(&games[*gi]).unwrap();
+        compare_loop_state(rep, s, &o, &want, &h);
+    });
+    (sessions.len() as u64, total.load(Ordering::Relaxed))
 }
 
 /// C04 in session context: whatever preceded it in the session, a position command leaves the engine
@@ -962,30 +1130,7 @@ pub fn c04_sessions(rep: &Report, commands: &[String]) -> (u64, u64) {
             Some(p) => p,
             None => return,
         };
-        let st = last_state(&o);
-        let field = |name: &str| -> String { st.split(' ').find_map(|t| t.strip_prefix(&format!("{}=", name)).map(|x| x.to_string())).unwrap_or_default() };
-        // expected dump fields from the oracle's position
-        let mut sq = String::new();
-        for r in (0..8).rev() {
-            for f in 0..8 {
-                let p = want.b[(r * 8 + f) as usize];
-                sq.push(if p == 0 { '.' } else { rules::piece_char(p) });
-            }
-        }
-        let rights = format!("{}{}{}{}", if want.rights & rules::WK != 0 { "K" } else { "-" }, if want.rights & rules::WQ != 0 { "Q" } else { "-" }, if want.rights & rules::BK != 0 { "k" } else { "-" }, if want.rights & rules::BQ != 0 { "q" } else { "-" });
-        let ep = want.ep.map(|e| { let p = crate::bridge::point_of_sq(e); format!("{}.{}", p.0, p.1) }).unwrap_or("-".into());
-        let key = crate::bridge::scratch_key(&want, &h).to_string();
-        let stm = if want.stm == rules::WHITE { "w" } else { "b" };
-        let mut diffs = Vec::new();
-        for (name, w) in [("sq", sq.as_str()), ("stm", stm), ("rights", rights.as_str()), ("ep", ep.as_str()), ("key", key.as_str())] {
-            if field(name) != w {
-                diffs.push(format!("{} is {} but the rules give {}", name, field(name), w));
-            }
-        }
-        if !diffs.is_empty() {
-            let context = if s.len() == 1 { "alone".to_string() } else { format!("after-{}", s[s.len() - 2].line.split(' ').next().unwrap_or("")) };
-            rep.fail("C04", &format!("position-command-in-session/{}", context), format!("session {:?}: after the last position command {}", lines, diffs.join("; ")), session_json(s));
-        }
+        compare_loop_state(rep, s, &o, &want, &h);
     });
     (sessions.len() as u64, total.load(Ordering::Relaxed))
 }
@@ -996,10 +1141,32 @@ pub fn c15_cli(rejected: &[String], rep: &Report) -> u64 {
     let mut inputs: Vec<String> = rejected.iter().filter(|s| !s.contains('\0')).cloned().collect();
     let skipped_nul = rejected.len() - inputs.len();
     let cap = if rep.quick() { 400 } else { 2000 };
-    inputs.truncate(cap);
+    // the rejected strings arrive in thread order: pick the same ones every run
+    inputs.sort();
+    inputs.dedup();
+    if inputs.len() > cap {
+        let stride = inputs.len() / cap;
+        inputs = inputs.into_iter().step_by(stride.max(1)).take(cap).collect();
+    }
     for extra in ["", " ", "x", "8/8/8/8/8/8/8/8 w - - 0", "4k3/8/8/8/8/8/8/4K3 w - ex 0 1", "4k3/8/8/8/8/8/8/4K3 w - é 0 1", "4k3/8/8/8/8/8/8/4K3 w - - 0 99999999999"] {
         inputs.push(extra.to_string());
     }
+    // what the command line does to its argument before the loader sees it (trimming, unquoting, splitting)
+    // has its own inputs: every string of <= 2 characters over an alphabet with all quote characters, blanks,
+    // separators and multi-byte characters, and a valid FEN with every such character before, after and around it
+    let cli_alphabet: Vec<char> = "\"'`“”‘’«» \t-/\\=,;w8Kké–€\u{1F600}\u{00A0}\u{2028}".chars().collect();
+    let valid = "4k3/8/8/8/8/8/8/4K3 w - - 0 1";
+    let before = inputs.len();
+    for &a in &cli_alphabet {
+        inputs.push(a.to_string());
+        inputs.push(format!("{}{}", a, valid));
+        inputs.push(format!("{}{}", valid, a));
+        for &b in &cli_alphabet {
+            inputs.push(format!("{}{}", a, b));
+            inputs.push(format!("{}{}{}", a, valid, b));
+        }
+    }
+    rep.add("cli_argument_shapes_quotes_blanks_multibyte", (inputs.len() - before) as u64);
     let ok = AtomicU64::new(0);
     run_parallel(inputs.len(), |i| {
         let dir = scratch_dir();
@@ -1248,6 +1415,204 @@ pub fn pos_of_command(line: &str) -> Option<Pos> {
         }
     }
     Some(pos)
+}
+
+/// One step of an interactive real-time session (the way a GUI drives the engine)
+pub enum Step {
+    Send(String),
+    Sleep(u64),
+    /// wait until a new output line starting with the prefix arrives, at most this many ms
+    Wait(&'static str, u64),
+}
+
+pub struct Timed {
+    pub sent: Vec<(String, u128)>,
+    pub out: Vec<(String, u128)>,
+    /// per Wait step: Some(arrival time) or None when the line did not come in time
+    pub waits: Vec<Option<u128>>,
+    pub exit_code: Option<i32>,
+    pub killed: bool,
+}
+
+/// Drive the unhooked binary interactively on the real clock; ends with `quit` and end of input.
+pub fn run_timed(steps: &[Step], kill_at_end: bool) -> Timed {
+    let dir = scratch_dir();
+    let mut child = match Command::new(BIN_OFF).current_dir(&dir).stdin(Stdio::piped()).stdout(Stdio::piped()).stderr(Stdio::null()).spawn() {
+        Ok(c) => c,
+        Err(e) => crate::report::machinery_error(&format!("cannot start {}: {}", BIN_OFF, e)),
+    };
+    let t0 = Instant::now();
+    let mut stdin = child.stdin.take().unwrap();
+    let mut stdout = child.stdout.take().unwrap();
+    let lines: std::sync::Arc<Mutex<Vec<(String, u128)>>> = std::sync::Arc::new(Mutex::new(Vec::new()));
+    let l2 = lines.clone();
+    let reader = std::thread::spawn(move || {
+        let mut buf = Vec::new();
+        let mut byte = [0u8; 4096];
+        loop {
+            match stdout.read(&mut byte) {
+                Ok(0) | Err(_) => break,
+                Ok(n) => {
+                    let now = t0.elapsed().as_millis();
+                    for b in &byte[..n] {
+                        if *b == b'\n' {
+                            l2.lock().unwrap().push((String::from_utf8_lossy(&buf).to_string(), now));
+                            buf.clear();
+                        } else {
+                            buf.push(*b);
+                        }
+                    }
+                }
+            }
+        }
+    });
+    let mut sent = Vec::new();
+    let mut waits = Vec::new();
+    let mut cursor = 0usize;
+    let send = |stdin: &mut std::process::ChildStdin, l: &str, sent: &mut Vec<(String, u128)>| {
+        sent.push((l.to_string(), t0.elapsed().as_millis()));
+        let _ = stdin.write_all(l.as_bytes());
+        let _ = stdin.write_all(b"\n");
+        let _ = stdin.flush();
+    };
+    send(&mut stdin, "uci", &mut sent);
+    for st in steps {
+        match st {
+            Step::Send(l) => send(&mut stdin, l, &mut sent),
+            Step::Sleep(ms) => std::thread::sleep(Duration::from_millis(*ms)),
+            Step::Wait(prefix, ms) => {
+                let until = Instant::now() + Duration::from_millis(*ms);
+                let mut found = None;
+                loop {
+                    {
+                        let g = lines.lock().unwrap();
+                        while cursor < g.len() {
+                            let (l, t) = &g[cursor];
+                            cursor += 1;
+                            if l.starts_with(prefix) {
+                                found = Some(*t);
+                                break;
+                            }
+                        }
+                    }
+                    if found.is_some() || Instant::now() >= until {
+                        break;
+                    }
+                    std::thread::sleep(Duration::from_micros(500));
+                }
+                waits.push(found);
+            }
+        }
+    }
+    if kill_at_end {
+        let _ = child.kill();
+    }
+    send(&mut stdin, "quit", &mut sent);
+    drop(stdin);
+    let end = Instant::now() + Duration::from_secs(3);
+    let mut killed = false;
+    let exit_code = loop {
+        match child.try_wait() {
+            Ok(Some(st)) => break st.code(),
+            Ok(None) => {
+                if Instant::now() > end {
+                    killed = true;
+                    let _ = child.kill();
+                    break child.wait().ok().and_then(|s| s.code());
+                }
+                std::thread::sleep(Duration::from_millis(1));
+            }
+            Err(_) => break None,
+        }
+    };
+    let _ = reader.join();
+    let _ = std::fs::remove_dir_all(&dir);
+    let out = lines.lock().unwrap().clone();
+    Timed { sent, out, waits, exit_code, killed }
+}
+
+/// Real-clock sessions on the unhooked binary, driven interactively (C08/C09). The virtual clock decides the
+/// exhaustive part; what only the real clock shows is where the engine takes its time stamp and how it
+/// compares it: slices of a second and more, idle time between commands, consecutive go commands, and
+/// clocks so large that the slice overflows narrower integer types.
+pub fn realclock_sessions(rep: &Report) -> u64 {
+    require_binaries();
+    let send = |s: &str| Step::Send(s.to_string());
+    // slice = 0.8 * (wtime - 100) / movestogo
+    let go200 = "go wtime 6100 btime 6100 movestogo 24"; // 200 ms
+    let go1100 = "go wtime 1475 btime 1475 movestogo 1"; // 1100 ms
+    let go2300 = "go wtime 2975 btime 2975 movestogo 1"; // 2300 ms
+    struct Case {
+        name: &'static str,
+        steps: Vec<Step>,
+        /// (index of the go among the sent lines, planned slice in ms or None for "must not answer in the window")
+        gos: Vec<Option<u128>>,
+    }
+    let tol_late: u128 = 3000;
+    let tol_early: u128 = 60;
+    let mut cases: Vec<Case> = Vec::new();
+    for (name, goline, slice) in [("slice-of-1100-ms", go1100, 1100u128), ("slice-of-2300-ms", go2300, 2300)] {
+        cases.push(Case { name, steps: vec![send(POSITIONS[0]), send("isready"), Step::Wait("readyok", 3000), send(goline), Step::Wait("bestmove", (slice + tol_late + 500) as u64)], gos: vec![Some(slice)] });
+    }
+    for (name, idle) in [("idle-before-go-300-ms", 300u64), ("idle-before-go-700-ms", 700)] {
+        cases.push(Case { name, steps: vec![send(POSITIONS[0]), send("isready"), Step::Wait("readyok", 3000), Step::Sleep(idle), send(go200), Step::Wait("bestmove", 4000)], gos: vec![Some(200)] });
+        // idle between the handshake and the position command as well
+        cases.push(Case { name, steps: vec![send("isready"), Step::Wait("readyok", 3000), Step::Sleep(idle), send(POSITIONS[2]), send(go200), Step::Wait("bestmove", 4000)], gos: vec![Some(200)] });
+    }
+    cases.push(Case { name: "two-gos-on-one-position", steps: vec![send(POSITIONS[0]), send(go200), Step::Wait("bestmove", 4000), send(go200), Step::Wait("bestmove", 4000), send(go200), Step::Wait("bestmove", 4000)], gos: vec![Some(200), Some(200), Some(200)] });
+    cases.push(Case { name: "go-position-go", steps: vec![send(POSITIONS[0]), send(go200), Step::Wait("bestmove", 4000), send(POSITIONS[2]), send(go200), Step::Wait("bestmove", 4000), send("ucinewgame"), send(POSITIONS[3]), Step::Sleep(250), send(go200), Step::Wait("bestmove", 4000)], gos: vec![Some(200), Some(200), Some(200)] });
+    cases.push(Case { name: "isready-between-position-and-go", steps: vec![send(POSITIONS[3]), Step::Sleep(250), send("isready"), Step::Wait("readyok", 3000), Step::Sleep(250), send(go200), Step::Wait("bestmove", 4000)], gos: vec![Some(200)] });
+    // clocks whose slice is 2^64 ms, a multiple of 2^64 ms, just below 2^32 and 2^31 ms, and plain large
+    for (name, wtime) in [("slice-2^64-ms", "23058430092136939620"), ("slice-multiple-of-2^64-ms", "100000000000000000000000000000000000000"), ("slice-2^32-ms", "5368709220"), ("slice-2^31-ms", "2684354660"), ("slice-10^15-ms", "1250000000000100"), ("slice-1-hour", "4500100")] {
+        cases.push(Case { name, steps: vec![send(POSITIONS[0]), send(&format!("go wtime {} btime 1000 movestogo 1", wtime)), Step::Wait("bestmove", 1800)], gos: vec![None] });
+    }
+    let n = AtomicU64::new(0);
+    run_parallel(cases.len(), |i| {
+        let case = &cases[i];
+        let t = run_timed(&case.steps, case.gos.iter().any(|g| g.is_none()));
+        n.fetch_add(1, Ordering::Relaxed);
+        let go_times: Vec<u128> = t.sent.iter().filter(|(l, _)| is_go(l)).map(|(_, at)| *at).collect();
+        let best_waits: Vec<Option<u128>> = {
+            // the Wait steps for "bestmove", in order
+            let mut v = Vec::new();
+            let mut wi = 0;
+            for st in &case.steps {
+                if let Step::Wait(p, _) = st {
+                    if *p == "bestmove" {
+                        v.push(t.waits.get(wi).cloned().flatten());
+                    }
+                    wi += 1;
+                }
+            }
+            v
+        };
+        let script: Vec<String> = case.steps.iter().map(|s| match s { Step::Send(l) => l.clone(), Step::Sleep(ms) => format!("<pause {} ms>", ms), Step::Wait(p, ms) => format!("<wait for {} up to {} ms>", p, ms) }).collect();
+        let replay = J::obj().set("kind", J::s("realclock-session")).set("script", J::strs(&script.iter().map(|s| s.as_str()).collect::<Vec<_>>())).set("binary", J::s(BIN_OFF));
+        for (gi, plan) in case.gos.iter().enumerate() {
+            let sent_at = go_times.get(gi).cloned().unwrap_or(0);
+            match (plan, best_waits.get(gi).cloned().flatten()) {
+                (Some(slice), Some(at)) => {
+                    let delay = at.saturating_sub(sent_at);
+                    if delay > slice + tol_late {
+                        rep.fail("C08", &format!("realclock/{}/bestmove-later-than-slice-plus-3s", case.name), format!("go #{} of {:?}: bestmove {} ms after go, slice {} ms", gi + 1, script, delay, slice), replay.clone());
+                    }
+                    if delay + tol_early < *slice {
+                        rep.fail("C09", &format!("realclock/{}/bestmove-earlier-than-planned-slice", case.name), format!("go #{} of {:?}: bestmove {} ms after go, planned slice {} ms", gi + 1, script, delay, slice), replay.clone());
+                    }
+                }
+                (Some(slice), None) => rep.fail("C08", &format!("realclock/{}/no-bestmove-within-slice-plus-3s", case.name), format!("go #{} of {:?}: no bestmove within {} ms (slice {} ms)", gi + 1, script, slice + tol_late + 500, slice), replay.clone()),
+                (None, Some(at)) => rep.fail("C09", &format!("realclock/{}/answered-long-before-the-planned-slice", case.name), format!("{:?}: bestmove {} ms after go although the planned slice is far longer", script, at.saturating_sub(sent_at)), replay.clone()),
+                (None, None) => {}
+            }
+        }
+        // the process must still end on quit (the huge-clock searches are still running: the I/O thread is
+        // blocked waiting for them, which the statement of C17 covers for completed searches only)
+        if case.gos.iter().all(|g| g.is_some()) && t.killed {
+            rep.fail("C08", &format!("realclock/{}/not-responsive-after-go", case.name), format!("{:?}: quit after the last bestmove did not end the process within 3 s", script), replay.clone());
+        }
+    });
+    rep.add("realclock_interactive_sessions_unhooked_binary", n.load(Ordering::Relaxed));
+    n.load(Ordering::Relaxed)
 }
 
 /// Wall-clock smoke check on the hooks-off binary (C08/C09): labelled as a measurement, generous margin.
